@@ -184,3 +184,76 @@ func VerifC13Twin() {
 	pt := idx.UpdateServiceEndpoints(verifShardA, "svc1", "ns", []*IstioEndpoint{verifEp("b")}, true)
 	vp.Assert(pt == NoPush, "twin")
 }
+
+// K3: the push decision of a registry report. A report may be swallowed (NoPush) only if it changes nothing a proxy is
+// served: no endpoint that was served disappears, no endpoint that stays changes, and every new endpoint is one that
+// is not served (unhealthy without SendUnhealthyEndpoints).
+func verifSymEp(p string) *IstioEndpoint {
+	ep := verifMkEp([]string{"10.0.0.1", "10.0.0.2", "10.0.0.3"}[vp.Choice(p+".addr", 3)], "sa1", Healthy)
+	ep.HealthStatus = HealthStatus(vp.IteInt(vp.Bool(p+".healthy"), int(Healthy), int(UnHealthy)))
+	ep.SendUnhealthyEndpoints = vp.Bool(p + ".sendUnhealthy")
+	w := vp.Uint32(p + ".weight")
+	vp.Assume(w <= 2)
+	ep.LbWeight = w
+	return ep
+}
+
+func verifSymEpList(p string, n int) []*IstioEndpoint {
+	var out []*IstioEndpoint
+	for i := 0; i < n; i++ {
+		ep := verifSymEp(vp.Name(p, i))
+		for _, o := range out {
+			if o.Addresses[0] == ep.Addresses[0] {
+				vp.Assume(false) // a report lists an address once
+			}
+		}
+		out = append(out, ep)
+	}
+	return out
+}
+
+func verifServed(ep *IstioEndpoint) bool {
+	return vp.Or(ep.HealthStatus != UnHealthy, ep.SendUnhealthyEndpoints)
+}
+
+func VerifC13PushDecision() {
+	old := verifSymEpList("old", 1+vp.Choice("old.n", 2))
+	incoming := verifSymEpList("new", vp.Choice("new.n", 3))
+	idx := NewEndpointIndex(DisabledCache{})
+	sh := verifShards[0]
+	idx.UpdateServiceEndpoints(sh, "svc1", "ns1", old, true)
+	pt := idx.UpdateServiceEndpoints(sh, "svc1", "ns1", incoming, true)
+	vp.Reach("decided")
+	mustPush := false
+	for _, o := range old {
+		var same *IstioEndpoint
+		for _, n := range incoming {
+			if n.Addresses[0] == o.Addresses[0] {
+				same = n
+			}
+		}
+		if same == nil {
+			mustPush = vp.Or(mustPush, verifServed(o)) // a served endpoint is withdrawn
+		} else {
+			changed := vp.Or3(same.HealthStatus != o.HealthStatus, same.LbWeight != o.LbWeight, same.SendUnhealthyEndpoints != o.SendUnhealthyEndpoints)
+			mustPush = vp.Or(mustPush, vp.And(changed, vp.Or(verifServed(o), verifServed(same))))
+		}
+	}
+	for _, n := range incoming {
+		isNew := true
+		for _, o := range old {
+			if n.Addresses[0] == o.Addresses[0] {
+				isNew = false
+			}
+		}
+		if isNew {
+			mustPush = vp.Or(mustPush, verifServed(n))
+		}
+	}
+	vp.Assert(vp.Implies(mustPush, pt != NoPush), "a-report-that-changes-what-is-served-is-pushed")
+	// whatever the decision, the index holds the report
+	got, _ := idx.ShardsForService("svc1", "ns1")
+	if len(incoming) > 0 {
+		vp.Assert(got != nil && verifSameList(got.Shards[sh], incoming), "index-holds-the-report-whatever-the-push-decision")
+	}
+}
